@@ -145,6 +145,35 @@ Proof.
   - cbn [orb]. rewrite box_kill_other by exact H0. reflexivity.
 Qed.
 
+(** The store's own enumeration — the mailboxes [VisitMailboxes] hands out, i.e. those that
+    hold mail ([spec_visit]) — covers every mailbox that holds mail. *)
+Lemma visit_covers st e : SInv st -> In e (live st) -> In (e_mb e) (map fst (spec_visit st)).
+Proof.
+  intros [_ LT] He. specialize (LT e He).
+  assert (Hn : In (e_mb e) (map fst (counts st))).
+  { destruct (in_dec (list_eq_dec N.eq_dec) (e_mb e) (map fst (counts st))) as [H|H]; [exact H|].
+    rewrite (count_zero_notin _ _ H) in LT. lia. }
+  apply in_map_iff in Hn as [p [Hp Hin]].
+  unfold spec_visit. apply in_map_iff.
+  exists (fst p, map view_of (box (fst p) (live st))). split; [exact Hp|].
+  apply filter_In. split.
+  - apply in_map_iff. exists p. split; [reflexivity|exact Hin].
+  - cbn [snd]. rewrite Hp. destruct (box (e_mb e) (live st)) eqn:B; [|reflexivity].
+    assert (In e (box (e_mb e) (live st))) by (apply box_in; auto). rewrite B in H. destruct H.
+Qed.
+
+(** scan_exact_all: a scan over the mailboxes the store itself enumerates leaves, in EVERY
+    mailbox, exactly the messages not older than the cutoff. *)
+Lemma scan_exact_all st mb : SInv st ->
+  box mb (live (scan cfg cutoff (map fst (spec_visit st)) st)) = filter young (box mb (live st)).
+Proof.
+  intros S. rewrite (scan_exact _ st mb S).
+  destruct (box mb (live st)) as [|e l] eqn:B; [destruct (mem_str mb _); reflexivity|].
+  assert (He : In e (box mb (live st))) by (rewrite B; left; reflexivity).
+  apply box_in in He as [He Hm].
+  pose proof (visit_covers st e S He) as V. rewrite Hm in V. apply mem_str_In in V. rewrite V. reflexivity.
+Qed.
+
 (** Nothing but message removal: the add counters (hence the handles issued later) are untouched. *)
 Lemma scan_counts order : forall st, counts (scan cfg cutoff order st) = counts st.
 Proof.
@@ -245,14 +274,14 @@ Proof. intros H. split; [exact H|]. split; [constructor|exact I]. Qed.
 
 Lemma Inv_step y e : Inv y -> Inv (ev_step cfg cutoff y e).
 Proof.
-  intros [S [R P]]. destruct e as [|o|]; cbn [ev_step].
+  intros [S [R P]]. destruct e as [tf|o|]; cbn [ev_step].
   - (* the scanner moves *)
     unfold sc_step. destruct (s_phase y) as [|mb rest|b] eqn:Ph.
     + destruct (s_todo y) as [|mb r].
       * unfold set_phase. split; [exact S|split; [exact R|exact I]].
       * split; [exact S|split; [exact R|]]. cbn [s_st s_phase]. apply snapshot_box_inv. exact S.
     + destruct rest as [|v rest].
-      * destruct (s_cancel y); unfold set_phase; (split; [exact S|split; [exact R|exact I]]).
+      * destruct (s_cancel y && negb tf); unfold set_phase; (split; [exact S|split; [exact R|exact I]]).
       * destruct (expired cutoff (snd v)) eqn:E.
         -- destruct (do_remove_live (s_st y) mb (fst v)) as [L C].
            split; [|split]; cbn [s_st s_removed s_phase].
@@ -282,15 +311,41 @@ Lemma never_deletes_young order st evs :
   SInv st -> Forall (fun e => expired cutoff (e_msg e) = true) (s_removed (run cfg cutoff (sys_init order st) evs)).
 Proof. intros H. apply (Inv_run evs (sys_init order st) (Inv_init order st H)). Qed.
 
+(** What the log [s_removed] is: a scanner step takes out of the store exactly what it appends
+    to the log (RemoveMessage removes the entries with that mailbox and handle, nothing else),
+    and any other entry stays. *)
+Lemma scanner_step_partition y tf :
+  exists delta, s_removed (sc_step cfg cutoff tf y) = s_removed y ++ delta /\
+    (forall e, In e delta -> In e (live (s_st y)) /\ ~ In e (live (s_st (sc_step cfg cutoff tf y)))) /\
+    (forall e, In e (live (s_st y)) -> In e (live (s_st (sc_step cfg cutoff tf y))) \/ In e delta).
+Proof.
+  unfold sc_step. destruct (s_phase y) as [|mb [|v rest]|b].
+  - destruct (s_todo y); exists []; cbn; rewrite app_nil_r; (split; [reflexivity|split; [intros e []|auto]]).
+  - destruct (s_cancel y && negb tf); exists []; cbn; rewrite app_nil_r; (split; [reflexivity|split; [intros e []|auto]]).
+  - destruct (expired cutoff (snd v)).
+    + exists (filter (is_ent mb (fst v)) (live (s_st y))). cbn [s_removed s_st].
+      destruct (do_remove_live (s_st y) mb (fst v)) as [L _]. rewrite L. unfold remove_ent.
+      split; [reflexivity|split].
+      * intros e He. apply filter_In in He as [He Ee]. split; [exact He|]. intros K. apply filter_In in K as [_ K].
+        rewrite Ee in K. discriminate.
+      * intros e He. destruct (is_ent mb (fst v) e) eqn:Ee; [right|left]; apply filter_In; rewrite ?Ee; auto.
+    + exists []. cbn. rewrite app_nil_r. split; [reflexivity|split; [intros e []|auto]].
+  - exists []. rewrite app_nil_r. split; [reflexivity|split; [intros e []|auto]].
+Qed.
+
 (* ------------------------------------------------------------------ cancellation *)
 
 Fixpoint steps_in (evs : list ev) : nat :=
-  match evs with [] => 0 | EStep :: r => S (steps_in r) | _ :: r => steps_in r end.
+  match evs with [] => 0 | EStep _ :: r => S (steps_in r) | _ :: r => steps_in r end.
+
+(** In every scanner step of the schedule the ctx case wins the select at a callback end: true
+    of the code when RetentionSleep is long enough for its timer not to have expired yet. *)
+Definition ctx_first (evs : list ev) : Prop := forall tf, In (EStep tf) evs -> tf = false.
 
 Lemma done_stays evs : forall y b, s_phase y = PDone b -> s_phase (run cfg cutoff y evs) = PDone b /\ s_removed (run cfg cutoff y evs) = s_removed y.
 Proof.
   induction evs as [|e evs IH]; intros y b H; [auto|]. unfold run. cbn [fold_left].
-  destruct e as [|o|]; cbn [ev_step].
+  destruct e as [tf|o|]; cbn [ev_step].
   - unfold sc_step. rewrite H. apply IH. exact H.
   - destruct (IH {| s_st := fst (fst (exec_spec cfg (s_st y) o)); s_todo := s_todo y; s_phase := s_phase y; s_cancel := s_cancel y;
                     s_removed := s_removed y; s_visited := s_visited y; s_attempts := s_attempts y |} b H) as [A B]. auto.
@@ -298,15 +353,29 @@ Proof.
                     s_removed := s_removed y; s_visited := s_visited y; s_attempts := s_attempts y |} b H) as [A B]. auto.
 Qed.
 
-(** cancel_bounded: once shutdown is requested, the scanner stops within (entries left in the
-    current snapshot + 1) of its own steps — whatever the other clients do meanwhile. *)
+(** The select at the end of a callback, shutdown requested: the ctx case ends the scan at
+    once; the timer case — ready only if the sleep timer has already expired — lets it go on
+    with the next mailbox. *)
+Lemma callback_end_choice y mb :
+  s_cancel y = true -> s_phase y = PBox mb [] ->
+  s_phase (sc_step cfg cutoff false y) = PDone true /\ s_phase (sc_step cfg cutoff true y) = PIdle /\
+  s_st (sc_step cfg cutoff false y) = s_st y /\ s_st (sc_step cfg cutoff true y) = s_st y.
+Proof. intros C P. unfold sc_step. rewrite P, C. cbn. auto. Qed.
+
+(** cancel_bounded: once shutdown is requested, a scanner whose sleep timer has not expired
+    when its callback ends ([ctx_first]) stops within (entries left in the current snapshot
+    + 1) of its own steps — whatever the other clients do meanwhile. (Each entry left may cost
+    one RemoveMessage call: a mailbox with n expired messages delays the stop by n removals.) *)
 Lemma cancel_bounded evs : forall y mb rest,
+  ctx_first evs ->
   s_cancel y = true -> s_phase y = PBox mb rest -> S (length rest) <= steps_in evs ->
   s_phase (run cfg cutoff y evs) = PDone true.
 Proof.
-  induction evs as [|e evs IH]; intros y mb rest C P L; [cbn in L; lia|].
-  unfold run. cbn [fold_left]. fold (run cfg cutoff). destruct e as [|o|]; cbn [steps_in] in L; cbn [ev_step].
-  - unfold sc_step. rewrite P. destruct rest as [|v rest].
+  induction evs as [|e evs IH]; intros y mb rest F C P L; [cbn in L; lia|].
+  assert (F' : ctx_first evs) by (intros tf H; apply F; right; exact H).
+  unfold run. cbn [fold_left]. fold (run cfg cutoff). destruct e as [tf|o|]; cbn [steps_in] in L; cbn [ev_step].
+  - assert (tf = false) by (apply F; left; reflexivity). subst tf.
+    unfold sc_step. rewrite P. destruct rest as [|v rest].
     + rewrite C. apply done_stays. reflexivity.
     + cbn [length] in L. destruct (expired cutoff (snd v)); eapply (IH _ mb rest); cbn [s_cancel s_phase set_phase]; auto; lia.
   - eapply (IH _ mb rest); cbn [s_cancel s_phase]; eauto.
@@ -314,9 +383,9 @@ Proof.
 Qed.
 
 (** Between two mailboxes a cancelled scanner takes at most one more snapshot. *)
-Lemma cancel_idle y :
+Lemma cancel_idle y tf :
   s_phase y = PIdle ->
-  (exists mb, s_phase (sc_step cfg cutoff y) = PBox mb (snapshot (s_st y) mb)) \/ s_phase (sc_step cfg cutoff y) = PDone false.
+  (exists mb, s_phase (sc_step cfg cutoff tf y) = PBox mb (snapshot (s_st y) mb)) \/ s_phase (sc_step cfg cutoff tf y) = PDone false.
 Proof. intros P. unfold sc_step. rewrite P. destruct (s_todo y) as [|mb r]; [right; reflexivity|left; exists mb; reflexivity]. Qed.
 
 End Ret.
@@ -383,7 +452,7 @@ Qed.
 
 Lemma GInv_step y e : GInv y -> GInv (ev_step cfg cutoff y e).
 Proof.
-  intros [Lt [Dt P]]. destruct e as [|o|]; cbn [ev_step].
+  intros [Lt [Dt P]]. destruct e as [tf|o|]; cbn [ev_step].
   - unfold sc_step. destruct (s_phase y) as [|mb rest|b] eqn:Ph.
     + destruct (s_todo y) as [|mb r] eqn:T.
       * unfold set_phase. split; [exact Lt|split; [exact Dt|]]. cbn [s_phase s_st]. intros Pr. exact (P Pr).
@@ -393,7 +462,7 @@ Proof.
         -- unfold snapshot. apply in_map. apply box_in. split; [exact He|]. apply is_ent_iff in Ee. tauto.
         -- cbn [view_of fst snd]. split; [apply is_ent_iff in Ee; tauto|]. unfold expired. rewrite (Dt e He Ee). exact d0_expired.
     + destruct rest as [|v rest].
-      * destruct (s_cancel y); unfold set_phase; (split; [exact Lt|split; [exact Dt|]]); cbn [s_phase s_st s_todo]; [exact I|].
+      * destruct (s_cancel y && negb tf); unfold set_phase; (split; [exact Lt|split; [exact Dt|]]); cbn [s_phase s_st s_todo]; [exact I|].
         intros Pr. destruct (P Pr) as [H|[_ [w [[] _]]]]. exact H.
       * destruct (expired cutoff (snd v)) eqn:E.
         -- destruct (do_remove_live cfg (s_st y) mb (fst v)) as [L C].
@@ -452,6 +521,6 @@ Qed.
 Example run_ex :
   let cfg := {| c_cap := 0; c_max := 0%N |} in
   let st := fst (fst (exec_spec cfg (fst (fst (exec_spec cfg spec_init (Add [97%N] (-50)%Z 0%N 0%N)))) (Add [97%N] (-5)%Z 1%N 0%N))) in
-  let y := run cfg (-10)%Z (sys_init [[97%N]] st) [EStep; EOp (Add [97%N] 0%Z 2%N 0%N); EStep; EStep; EStep; EStep] in
+  let y := run cfg (-10)%Z (sys_init [[97%N]] st) [EStep false; EOp (Add [97%N] 0%Z 2%N 0%N); EStep true; EStep false; EStep true; EStep false] in
   s_phase y = PDone false /\ map e_k (live (s_st y)) = [1; 2] /\ map e_k (s_removed y) = [0].
 Proof. repeat split. Qed.
